@@ -152,12 +152,10 @@ def _nd(case, R, rng):
 
     d = case["dim"]
     cm = W.gen_copula_model_spec(rng, dim=d, kind=str(rng.choice(["clayton", "clayton", "independent", "dependent"])), exp=True)
+    W.limit_variation(rng, cm, allow_infinite=bool(d == 2 and rng.random() < 0.3), y_hi=0.7)
     for ms in cm["margins"]:
         ms["r"] = max(cm["margins"][0]["r"], 0.005)
         ms["d"] = 0.0
-        if ms["family"] == "CGMY" and ms["params"]["y"] >= 1.0:
-            ms["params"]["y"] = W.r6(rng.uniform(0.05, 0.7))
-            ms["branch"] = "0<y<1"
         if ms["family"] == "MERTON":
             ms["params"]["sigma_j"] = max(ms["params"]["sigma_j"], 0.08)
             ms["params"]["mu_j"] = min(ms["params"]["mu_j"], 0.05)
